@@ -17,12 +17,14 @@ Reading guide
                            digit, or the zero `[0]`,`decpt = 1`) — what CPython's digit generator delivers
 * `jsonToXml`, `xmlToJson` transcriptions of fn:json-to-xml / fn:xml-to-json (default options) on `JValue`
                            and the element type `Elem` (tag, key attribute, text, children)
-* `JValue.x2jOK`           strings/keys of XML characters, distinct keys in every object, integers below
-                           10^16 in absolute value, doubles in normal form whose repr is not `ddd.0`
+* `JValue.x2jDom`          strings/keys of XML characters, distinct keys in every object, doubles in normal form
+* `numVal`, `sameNum`, `SameValue`   value semantics: a number is mantissa × 10^exponent, compared as a rational
+* `rnd`, `numsFixed`       `float()` as an explicit parameter of xml-to-json's number branch; "the numbers of v are doubles"
 * `pjPairs`, `dedupeFirst` the `duplicates` loop of fn:parse-json and the F&O specification of `use-first`
 -/
 import EPV.Lemmas.JsonXml
 import EPV.Lemmas.JsonDup
+import EPV.Lemmas.JsonXmlText
 namespace EPV.C17
 open EPV.Json
 
@@ -133,31 +135,40 @@ theorem serialize_parse_surrogates :
 theorem decimal_quantize_old_fails :
     f17bTrigger 314159 5 = true ∧ quantize2UpOld 314159 5 = 315 ∧ 315 * 10 ^ 3 ≠ 314159 := by decide
 
-/-- PARTIAL.  `xml-to-json(json-to-xml(t))` succeeds and is a JSON text that the RFC 8259 reader reads
-back to the value of `t`, for every value in the domain `x2jOK` (any nesting; strings and keys of XML
-characters incl. `"`, `\`, `/`, controls; distinct keys; integers below 10^16; doubles whose repr has
-a fraction or an exponent).
-Full statement (not proved, observed by the correspondence check on every run): for every JSON value
-with XML strings and distinct keys the result denotes the same value *up to the spelling of numbers* —
-an integer of 17 or more digits comes back in exponent notation (`1e+16`, nearest double), a double
-such as `100.0` comes back as `100`.  Outside the hypothesis the model's `float()` step is a trusted
-parameter (shortest-digit generation), so no theorem is stated there. -/
-theorem json_xml_roundtrip_partial (v : JValue) (h : v.x2jOK = true) :
-    ∃ t, (jsonToXml v).bind xmlToJson = .ok t ∧ parseJson t = some v :=
-  ⟨render escChar v, x2j_render v h,
-    parseJson_render escChar isXmlCodepoint escOK_escChar_xml stableDbl numOK_stable v (x2jOK_valid v h)⟩
+/-- `xml-to-json(json-to-xml(t))` DENOTES THE SAME JSON VALUE as `t`: it succeeds, the RFC 8259 reader
+reads the result back to a value `w`, and `w` is the same value as `v` (`SameValue`: same structure, same
+strings and keys, numbers equal *as numbers* — `numVal`/`sameNum`: mantissa × 10^exponent compared as
+rationals; the spelling may differ: `100.0 ↦ 100`, `10^20 ↦ 1e+20`, `-0.0 ↦ -0`).
+For every JSON value with XML strings, distinct keys and normal-form doubles (`x2jDom`), any nesting,
+ANY integers and doubles, and for every `float()` (`rnd`, the trusted parameter of the number branch) that
+leaves the numbers of `v` alone (`numsFixed`): that is `float(repr(x)) == x` for the doubles of `v`, and
+for an integer literal it says the integer is itself a double (else JSON's number model, xs:double,
+rounds it — by design, not a defect). -/
+theorem json_xml_roundtrip (rnd : Dec → Dec) (v : JValue) (h : v.x2jDom = true) (hr : v.numsFixed rnd) :
+    ∃ t w, (jsonToXml v).bind (xmlToJson rnd) = .ok t ∧ parseJson t = some w ∧ SameValue v w := by
+  refine ⟨renderG escChar (x2jI id) (x2jD id) v, mapNum (fun n => x2jVal (denInt n)) x2jVal v, ?_, ?_,
+    same_mapNum v h⟩
+  · rw [x2j_render rnd v h, renderG_fixed rnd v hr]
+  · exact parseJson_renderG escChar (x2jI id) (x2jD id) (fun n => x2jVal (denInt n)) x2jVal isXmlCodepoint
+      escOK_escChar_xml wfDec (fun n => numOK_reprStripped (denInt n) (wfDec_denInt n))
+      (fun d hd => numOK_reprStripped d hd) v (x2jDom_valid v h)
 
-/-- the hypothesis of `json_xml_roundtrip_partial` holds on a non-trivial value (test on literals):
-`{"a\"/":[null,-12,1.5,1e+21,"\n\\n"],"":{}}` -/
+/-- the hypotheses of `json_xml_roundtrip` hold on a non-trivial value (test on literals):
+`{"a\"/":[null,-12,1.5,1e+21,100.0,-0.0,100000000000000000000,"\n\\n"],"":{}}` with `float()` = identity
+on these numbers -/
 example : (JValue.obj [([97, 34, 47], .arr [.null, .int (-12), .dbl ⟨false, [1, 5], 1⟩, .dbl ⟨false, [1], 22⟩,
-    .str [10, 92, 110]]), ([], .obj [])]).x2jOK = true := by decide
+    .dbl ⟨false, [1], 3⟩, .dbl ⟨true, [0], 1⟩, .int (10 ^ 20), .str [10, 92, 110]]), ([], .obj [])]).x2jDom = true ∧
+    (JValue.arr [.int (-12), .dbl ⟨false, [1], 3⟩, .int (10 ^ 20)]).numsFixed id :=
+  ⟨by decide, ⟨rfl, rfl, rfl, trivial⟩⟩
 
-/-- outside the domain the text changes but (here) not the number: 100.0 is written `100` (test on literals) -/
-example : (jsonToXml (.dbl ⟨false, [1], 3⟩)).bind xmlToJson = .ok [49, 48, 48] := by rfl
+/-- spellings change, values do not (tests on literals): `100.0 ↦ 100`, `-0.0 ↦ -0`, `10^20 ↦ 1e+20` -/
+example : (jsonToXml (.dbl ⟨false, [1], 3⟩)).bind (xmlToJson id) = .ok [49, 48, 48] := by rfl
+example : (jsonToXml (.dbl ⟨true, [0], 1⟩)).bind (xmlToJson id) = .ok [45, 48] := by rfl
+example : (jsonToXml (.int (10 ^ 20))).bind (xmlToJson id) = .ok [49, 101, 43, 50, 48] := by rfl
 
 /-- duplicate keys are kept by json-to-xml (default `duplicates: retain`) and rejected by xml-to-json
 with FOJS0006, as F&O 17.4/17.5 prescribe (test on literals) -/
-example : (jsonToXml (.obj [([97], .int 1), ([97], .int 2)])).bind xmlToJson = .error .FOJS0006 := by rfl
+example : (jsonToXml (.obj [([97], .int 1), ([97], .int 2)])).bind (xmlToJson id) = .error .FOJS0006 := by rfl
 
 /-- fn:parse-json, `duplicates: use-first` (the default): the dict-filling loop of the implementation
 computes the specification's "first member with a given key wins", for every list of members
@@ -165,6 +176,18 @@ computes the specification's "first member with a given key wins", for every lis
 theorem parse_json_use_first {α} (m : List (Str × α)) :
     pjPairs .useFirst [] m = .ok (dedupeFirst [] (fixKeys m)) := by
   have := pjPairs_useFirst m []
+  simpa using this
+
+/-- fn:parse-json, `duplicates: use-last`: overwriting the dict entry computes the specification's "last
+value wins, at the position of the first occurrence", for every list of members. -/
+theorem parse_json_use_last {α} (m : List (Str × α)) :
+    pjPairs .useLast [] m = .ok (dedupeLast [] (fixKeys m)) := pjPairs_useLast m
+
+/-- fn:parse-json, `duplicates: reject`: FOJS0003 exactly when some key occurs twice, otherwise the
+members unchanged, for every list of members. -/
+theorem parse_json_reject {α} (m : List (Str × α)) :
+    pjPairs .reject [] m = if hasDupKeys (fixKeys m) then .error .FOJS0003 else .ok (fixKeys m) := by
+  have := pjPairs_reject m []
   simpa using this
 
 /-- The functions of this property are pure, so a *history* of evaluations is the list of the single
@@ -180,9 +203,60 @@ theorem serialize_parse_history (vs : List JValue) (h : ∀ v ∈ vs, v.valid = 
     simp only [List.map_cons]
     rw [serialize_parse_value v (h v (by simp)), ih (fun w hw => h w (by simp [hw]))]
 
-/-- the same for `xml-to-json(json-to-xml(·))` on its proved domain -/
-theorem json_xml_history_partial (vs : List JValue) (h : ∀ v ∈ vs, v.x2jOK = true) :
-    ∀ v ∈ vs, ∃ t, (jsonToXml v).bind xmlToJson = .ok t ∧ parseJson t = some v :=
-  fun v hv => json_xml_roundtrip_partial v (h v hv)
+/-- the same for `xml-to-json(json-to-xml(·))` -/
+theorem json_xml_history (rnd : Dec → Dec) (vs : List JValue) (h : ∀ v ∈ vs, v.x2jDom = true ∧ v.numsFixed rnd) :
+    ∀ v ∈ vs, ∃ t w, (jsonToXml v).bind (xmlToJson rnd) = .ok t ∧ parseJson t = some w ∧ SameValue v w :=
+  fun v hv => json_xml_roundtrip rnd v (h v hv).1 (h v hv).2
+
+/-! ### XML: escaping of character data and attribute values (fn:serialize ∘ fn:parse-xml) -/
+
+theorem no_cr_of_hasCR (s : Str) (h : hasCR s = false) : ∀ x ∈ s, x ≠ 13 := by
+  intro x hx h13
+  subst h13
+  have : hasCR s = true := List.any_eq_true.mpr ⟨13, hx, by simp⟩
+  rw [h] at this
+  exact absurd this (by simp)
+
+/-- PARTIAL (known finding F17n).  An XML reader (end-of-line normalization + references) reads the
+ElementTree escaping of character data back to the text, for every text WITHOUT U+000D.
+Full statement `∀ s, xmlReadText (etEscapeText s) = some s` is false: `xml_text_cr_fails`. -/
+theorem xml_text_roundtrip_partial (s : Str) (h : hasCR s = false) : xmlReadText (etEscapeText s) = some s := by
+  have hs := no_cr_of_hasCR s h
+  unfold xmlReadText
+  rw [etEscapeText_flatMap, normEol_noop]
+  · exact readChars_flatMap_full false etTextChar s (fun c _ => charOK_etText c)
+  · apply no13_flatMap
+    intro x hx c hc
+    have hx13 := hs x hx
+    unfold etTextChar at hc
+    repeat (split at hc; · simp at hc; omega)
+    simp at hc; omega
+
+/-- F17n: ElementTree writes U+000D raw in character data, the reader turns it into U+000A. -/
+theorem xml_text_cr_fails : hasCR [120, 13, 121] = true ∧
+    xmlReadText (etEscapeText [120, 13, 121]) = some [120, 10, 121] := by decide
+
+/-- with lxml's escaping (U+000D written `&#13;`) the round trip holds for every text -/
+theorem xml_text_roundtrip_lxml (s : Str) : xmlReadText (lxEscapeText s) = some s := by
+  unfold xmlReadText
+  rw [lxEscapeText_flatMap, normEol_noop]
+  · exact readChars_flatMap_full false lxTextChar s (fun c _ => charOK_lxText c)
+  · apply no13_flatMap
+    intro x _ c hc
+    unfold lxTextChar at hc
+    repeat (split at hc; · simp at hc; omega)
+    simp at hc; omega
+
+/-- attribute values round-trip for every string: `& < > "` become entity references and TAB, LF, CR
+character references, which attribute-value normalization leaves alone -/
+theorem xml_attr_roundtrip (s : Str) : xmlReadAttr (etEscapeAttr s) = some s := by
+  unfold xmlReadAttr
+  rw [etEscapeAttr_flatMap, normEol_noop]
+  · exact readChars_flatMap_full true etAttrChar s (fun c _ => charOK_etAttr c)
+  · apply no13_flatMap
+    intro x _ c hc
+    unfold etAttrChar at hc
+    repeat (split at hc; · simp at hc; omega)
+    simp at hc; omega
 
 end EPV.C17
